@@ -80,6 +80,7 @@ func init() {
 	addProp(&propCfg{id: "C04", quick: tierCfg{4000, 60, 25}, thorough: tierCfg{400000, 600, 200}})
 	addProp(&propCfg{id: "C10", quick: tierCfg{4000, 60, 25}, thorough: tierCfg{400000, 900, 200}})
 	addProp(&propCfg{id: "C14", quick: tierCfg{4000, 60, 25}, thorough: tierCfg{400000, 900, 200}})
+	addProp(&propCfg{id: "C16", race: true, quick: tierCfg{1500, 75, 50}, thorough: tierCfg{100000, 1200, 400}})
 	addProp(&propCfg{id: "C15", quick: tierCfg{4000, 60, 25}, thorough: tierCfg{400000, 900, 200}})
 }
 
@@ -358,6 +359,13 @@ func (b *build) worker(spec Spec, id int, hardDeadline time.Time, extraEnv []str
 	return total, log.String(), nil
 }
 
+// raceEnv makes the race detector of a worker write its reports to a file
+// the worker reads back after every run (no-op for non-race binaries).
+func raceEnv(scratch, tag string) []string {
+	prefix := filepath.Join(scratch, "race-"+tag)
+	return []string{"GORACE=log_path=" + prefix + " halt_on_error=0 history_size=2 suppress_equal_stacks=0 suppress_equal_addresses=0", "VERIF_RACELOG=" + prefix}
+}
+
 func tailBytes(b []byte, n int) []byte {
 	if len(b) > n {
 		return b[len(b)-n:]
@@ -415,7 +423,7 @@ func (b *build) oneShot(spec Spec, tag string, timeout time.Duration) ([]byte, s
 	sb, _ := json.Marshal(spec)
 	os.WriteFile(specPath, sb, 0o644)
 	cmd := exec.Command(b.bin, "-test.run", "^TestSim$", "-test.cpu", "1", "-test.timeout", "0")
-	cmd.Env = append(os.Environ(), "VERIF_SPEC="+specPath)
+	cmd.Env = append(append(os.Environ(), "VERIF_SPEC="+specPath), raceEnv(b.scratch, "one-"+tag)...)
 	var out bytes.Buffer
 	cmd.Stdout = &out
 	cmd.Stderr = &out
@@ -608,7 +616,11 @@ func cmdCheck(args []string) int {
 			}
 			spec := Spec{Mode: "batch", Prop: id, Tier: *tier, SeedBase: seed, IndexFrom: uint64(w), Stride: uint64(W), Count: cnt,
 				BudgetMs: tc.budgetSec * 1000, Twice: tc.twice, MaxViol: 4}
-			s, lg, err := b.worker(spec, w, hard, nil)
+			var extra []string
+			if pc.race {
+				extra = raceEnv(b.scratch, fmt.Sprintf("w%d", w))
+			}
+			s, lg, err := b.worker(spec, w, hard, extra)
 			results[w] = wres{s, lg, err}
 		}(w)
 	}
@@ -687,7 +699,8 @@ func cmdCheck(args []string) int {
 			}
 		}
 		if ok < 2 {
-			os.Remove(path)
+			os.Rename(path, filepath.Join(os.TempDir(), "verif-unreproduced-"+name))
+			fmt.Fprintf(os.Stderr, "%s\n", abbreviate(rf.Violation.Detail, 3000))
 			fatal2("violation %s/%s (seed %d) did not reproduce twice from its replay file (%d/2): harness determinism problem, nothing reported", rf.Violation.Clause, rf.Violation.Key, rf.Seed, ok)
 		}
 		if kf := matchKnown(known, id, rf.Violation); kf != nil {
@@ -745,10 +758,10 @@ func abbreviate(s string, n int) string {
 
 var realVsStub = map[string]string{
 	"varlink/service.go, call.go, orgvarlinkservice.go, connection.go (except NewConnection's dial), resolver.go (except NewResolver's dial), internal/ctxio/conn.go, bridge.go": "real code, instrumented scratch copy of the working tree",
-	"varlink/listen_1.1x.go": "stub (listen_sim.go -> simulated socket namespace)",
+	"varlink/listen_1.1x.go":                  "stub (listen_sim.go -> simulated socket namespace)",
 	"varlink/newbridge.go (sh -c subprocess)": "stub: simulated peer task on simulated stdio pipe ends",
-	"kernel sockets, pipes, scheduler, clock":  "stub: the simulator",
-	"encoding/json, bufio, context, sync":      "real (standard library, un-instrumented)",
+	"kernel sockets, pipes, scheduler, clock": "stub: the simulator",
+	"encoding/json, bufio, context, sync":     "real (standard library, un-instrumented)",
 }
 
 func writeEvidence(pc *propCfg, tier string, seed uint64, t *Summary, reported []map[string]interface{}, wall, buildS float64, instr, tree string, workers int) {
